@@ -11,7 +11,8 @@ Back == EnvIn("bigback", "")
 T(AA, fs) == [Xfer(0, "ubig", 0, FwINT("U"), fs) EXCEPT !.amtc = "DIGITS", !.amtd = AA]
 P255 == Pow2Around(255)[2]
 Fee == <<FeeAct(<<EB(250, "F1")>>)>>
-Seqs == { << T(P255, <<>>), Back, T(P255, <<>>), Back, T(P255, <<>>) >>,
+Dusty == EnvIn("bigdust", "")       \* 2^64 units of the big denom deposited on the orbiter account
+Seqs == { << Dusty, T(Pow2Around(64)[3], <<>>), Dusty, Dusty, T(Pow2Around(128)[2], Fee), Back, Dusty, T(<<1>>, <<>>) >>, << T(P255, <<>>), Back, T(P255, <<>>), Back, T(P255, <<>>) >>,
           << T(BMax256, <<>>), Back, T(<<1>>, <<>>), Back, T(BMax256, <<>>) >>,
           << T(P255, Fee), Back, T(P255, Fee), Back, T(Pow2Around(64)[2], Fee) >>,
           << T(Pow2Around(255)[1], <<>>), Back, T(Pow2Around(255)[1], <<>>), Back, T(<<3>>, <<>>), Back, T(P255, <<>>) >> }
